@@ -248,6 +248,9 @@ class PoolManager(RequestMethods):
         pool_cls: type[HTTPConnectionPool] = self.pool_classes_by_scheme[scheme]
         if request_context is None:
             request_context = self.connection_pool_kw.copy()
+        else:
+            # The keys consumed below must not disappear from the caller's dict.
+            request_context = request_context.copy()
 
         # Default blocksize to _DEFAULT_BLOCKSIZE if missing or explicitly
         # set to 'None' in the request_context.
